@@ -10,22 +10,22 @@ import (
 
 // ScenarioStats are the per-scenario counters of one worker (merged by the parent).
 type ScenarioStats struct {
-	Name        string         `json:"name"`
-	Executions  int64          `json:"executions"`
-	Transitions int64          `json:"transitions"`
-	MaxDepth    int            `json:"max_depth"`
-	Pruned      int64          `json:"sleep_set_pruned,omitempty"`
-	NonTrivial  int64          `json:"nontrivial_executions"`
-	Outcomes    map[uint64]int `json:"-"`
-	NTOutcomes  map[uint64]int `json:"-"`
+	Name        string           `json:"name"`
+	Executions  int64            `json:"executions"`
+	Transitions int64            `json:"transitions"`
+	MaxDepth    int              `json:"max_depth"`
+	Pruned      int64            `json:"sleep_set_pruned,omitempty"`
+	NonTrivial  int64            `json:"nontrivial_executions"`
+	Outcomes    map[uint64]int   `json:"-"`
+	NTOutcomes  map[uint64]int   `json:"-"`
 	Tags        map[string]int64 `json:"tags,omitempty"`
-	Violations  int64          `json:"violations"`
-	Complete    bool           `json:"complete"`
-	Mode        string         `json:"mode,omitempty"`
-	Sharded     bool           `json:"sharded"`
-	XStates     int64          `json:"x_states"`
-	XTrans      int64          `json:"x_transitions"`
-	Incomplete  string         `json:"incomplete,omitempty"`
+	Violations  int64            `json:"violations"`
+	Complete    bool             `json:"complete"`
+	Mode        string           `json:"mode,omitempty"`
+	Sharded     bool             `json:"sharded"`
+	XStates     int64            `json:"x_states"`
+	XTrans      int64            `json:"x_transitions"`
+	Incomplete  string           `json:"incomplete,omitempty"`
 }
 
 type workerResult struct {
